@@ -384,7 +384,7 @@ fn inner(world_no: u64, t: &mut Tape, rep: &mut WorldReport) {
         "engine": "stage-sim",
         "program": name,
         "tx": txname,
-        "source": if source.len() < 2500 { source.clone() } else { format!("{}…", &source[..2500]) },
+        "source": crate::tape::clip(&source, 2500),
         "arg_parts": arg_parts.iter().map(|m| m.keys().cloned().collect::<Vec<_>>()).collect::<Vec<_>>(),
         "input_blocks": all_inputs.iter().map(|(k, v)| (k.clone(), v.len())).collect::<BTreeMap<_, _>>(),
         "fee": fee,
